@@ -171,8 +171,53 @@ def gen_lookup(cls, rng, count):
     return cases
 
 
+def gen_twins(cls, rng, count):
+    """a container that (often solely) owns connected nodes is offered same-key twins: the refused twin must not replace,
+    release or outlive anything; get / remove then hand out the ORIGINAL. No disconnect / isolate / search after a twin
+    exists (same-key live nodes are outside C01-C03's proviso)."""
+    cases = []
+    for ci in range(count):
+        n = rng.randint(2, 4)
+        keys = rng.sample(range(1, 40), n)
+        steps = ["onew %d %d %d" % (i, keys[i], 100 + i) for i in range(n)]
+        for j in range(rng.randint(1, 6)):
+            steps.append("ocon %d %d %d" % (rng.randrange(n), rng.randrange(n), rng.randint(0, 30)))
+        steps.append("ogra %d" % GRAPH_SLOT)
+        members = [i for i in range(n) if rng.random() < 0.85] or [0]
+        steps += ["ogins %d %d" % (GRAPH_SLOT, i) for i in members]
+        # the container becomes the only owner of some members
+        for i in members:
+            if rng.random() < 0.6:
+                steps.append("odrop %d" % i)
+        tok = 200
+        twin_slots = []
+        for j in range(rng.randint(1, 3)):
+            i = rng.choice(members)
+            slot = rng.choice([s for s in NODE_SLOTS if s >= n] or NODE_SLOTS)
+            steps.append("onew %d %d %d" % (slot, keys[i], tok))
+            tok += 1
+            steps.append("ogins %d %d" % (GRAPH_SLOT, slot))
+            twin_slots.append(slot)
+            r = rng.random()
+            if r < 0.4:
+                steps.append("ogget %d %d %d" % (rng.choice(NODE_SLOTS), GRAPH_SLOT, keys[i]))
+            elif r < 0.6:
+                steps.append("ogrem %d %d %d" % (rng.choice(NODE_SLOTS), GRAPH_SLOT, keys[i]))
+            elif r < 0.8:
+                steps.append("odrop %d" % slot)
+            steps.append("ouse %d" % rng.choice(ALL_SLOTS))
+        drops = list(ALL_SLOTS)
+        rng.shuffle(drops)
+        steps += ["odrop %d" % s for s in drops]
+        cases.append(Case("own%sT%d" % (cls, ci), cls, steps, dict(kind="same-key-twins-offered-to-container")))
+    return cases
+
+
 def oracle_own(case, obs):
-    """independent reading of C19 on the implementation's observations"""
+    """independent reading of C19 on the implementation's observations: values are released at most once, only values
+    that exist, never while a handle this oracle KNOWS to be alive holds them (node slots whose content is known, and the
+    container's members as decided by insert's contract), shown objects are usable and show live values, container
+    contents are exactly the accepted inserts, and nothing is left once every slot has been dropped"""
     if obs == "HANG":
         return "call never returns"
     created = set()
@@ -181,9 +226,12 @@ def oracle_own(case, obs):
         t = s.split()
         if t[0] == "onew":
             created.add(int(t[3]))
-    graph_has_slot = True
+    slot_val = {}      # node slot -> value id it is known to hold (None = holds something unknown)
+    key_of = {}        # value id -> key
+    graph = None       # key -> value id (the container of GRAPH_SLOT), by insert's contract
     for (si, text) in obs:
         st = case.steps[si]
+        t = st.split()
         body, _, rel = text.partition(" | rel")
         ids = [int(x) for x in rel.split()]
         for x in ids:
@@ -192,12 +240,59 @@ def oracle_own(case, obs):
             if x not in created:
                 return "step %d `%s`: unknown value %d released" % (si, st, x)
             released.append(x)
+        harness_panic = body.startswith("panic")
+        if t[0] == "onew":
+            slot_val[int(t[1])] = int(t[3])
+            key_of[int(t[3])] = int(t[2])
+        elif t[0] == "oclone" and not harness_panic:
+            slot_val[int(t[1])] = slot_val.get(int(t[2]))
+        elif t[0] == "odrop":
+            slot_val.pop(int(t[1]), None)
+            if int(t[1]) == GRAPH_SLOT:
+                graph = None
+        elif t[0] == "ogra":
+            slot_val.pop(int(t[1]), None)
+            graph = {}
+        elif t[0] == "ogins" and graph is not None and not harness_panic:
+            v = slot_val.get(int(t[2]))
+            if v is None:
+                graph = None     # unknown object inserted: stop tracking the container
+            else:
+                k = key_of[v]
+                want = 0 if k in graph else 1
+                if body != "ok %d" % want:
+                    return "step %d `%s`: insert returned `%s`, key %d %s a member" % (si, st, body, k, "is" if k in graph else "is not")
+                if want:
+                    graph[k] = v
+        elif t[0] in ("ogget", "ogrem") and not harness_panic:
+            k = int(t[3])
+            if graph is not None:
+                if (k in graph) != body.startswith("node"):
+                    return "step %d `%s` -> `%s`, but key %d %s a member" % (si, st, body, k, "is" if k in graph else "is not")
+                if k in graph:
+                    slot_val[int(t[1])] = graph[k]
+                    if t[0] == "ogrem":
+                        del graph[k]
+            elif body.startswith("node"):
+                slot_val[int(t[1])] = None
+        elif t[0] in ("ofind", "oedge", "opath", "onodes") and not harness_panic:
+            if not body.startswith("none"):
+                slot_val[int(t[1])] = None   # a search result / edge / path / vector: content not tracked here
         if st.startswith("ouse"):
-            if body.startswith("panic"):
+            if harness_panic:
                 return "step %d `%s`: an object that is still held is not usable (panic)" % (si, st)
             for (k, v) in re.findall(r"(\d+):(\d+)", body):
                 if int(v) in released:
                     return "step %d `%s` shows node value %s, which was released earlier although the object holding it is alive" % (si, st, v)
+            if body.startswith("graph") and graph is not None:
+                shown = sorted((int(k), int(v)) for (k, v) in re.findall(r"(\d+):(\d+)", body))
+                if shown != sorted(graph.items()):
+                    return "step %d `%s`: the container holds %s, the accepted inserts are %s" % (si, st, shown, sorted(graph.items()))
+        # no value is released while a handle known to be alive holds it
+        held = set(v for v in slot_val.values() if v is not None) | (set(graph.values()) if graph is not None else set())
+        bad = held & set(released)
+        if bad:
+            return "step %d `%s`: node value %s released while a handle to its node is still held (a node slot or the container)" % (si, st, sorted(bad))
     # the generator ends every case by dropping every slot
     if len(obs) == len(case.steps):
         left = created - set(released)
